@@ -71,7 +71,7 @@ type Path struct {
 }
 
 func PP(local string, inv bool) Path { s := NS + local; return Path{P: &s, Inv: inv} }
-func PType() Path                     { s := "@type"; return Path{P: &s} }
+func PType() Path                    { s := "@type"; return Path{P: &s} }
 
 func PCustom(name string, inv bool) Path { s := ApiExtNS + name; return Path{P: &s, Inv: inv} }
 
